@@ -34,6 +34,8 @@ type modelTSM struct {
 	ops     []core.Sexp
 	next    uint64
 	shaTab  map[string][]byte
+	// onReadDir, when set, runs once inside the next ReadDir (another request overlapping this one)
+	onReadDir func()
 }
 
 const rtmrRoot = "/sys/kernel/config/tsm/rtmrs"
@@ -70,6 +72,10 @@ func (t *modelTSM) ReadDir(dirname string) ([]os.DirEntry, error) {
 		return nil, fmt.Errorf("unexpected ReadDir %q", dirname)
 	}
 	t.ops = append(t.ops, core.Ls(core.A(0)))
+	if f := t.onReadDir; f != nil {
+		t.onReadDir = nil
+		f()
+	}
 	var out []os.DirEntry
 	for _, e := range t.entries {
 		out = append(out, dirEnt{entryName(e.name)})
@@ -179,7 +185,7 @@ func (q rtmrReq) String() string {
 }
 
 func C17(c *core.Ctx) {
-	c.Rule = "requests over the alphabet index in {-1..5, MinInt, MaxInt, and values congruent to 0..3 modulo 2^8, 2^16, 2^32} x digest lengths {0,1,32,47,48,49,64} / event logs {empty, 1 byte, 100 bytes} x hash algorithms {SHA-384, SHA-256, SHA-512, SHA-1, 0}; every single request on empty and pre-populated TSMs (entries bound to other indices, unreadable / unparsable index files, an existing entry for the index, newline-terminated index), and sequences of up to k requests (k = 6 quick, 10 thorough) against a model TSM client that records ReadDir / ReadFile index / MkdirTemp / WriteFile index / WriteFile digest and implements register extension. Ground truth: rejected requests perform no operation; accepted ones exactly one digest write of the exact digest on the entry bound to the index (re-used when it exists); registers equal the extend chain of the accepted digests per index in call order. non-trivial = history with at least one accepted request; distinct = distinct (initial TSM, request sequence)"
+	c.Rule = "requests over the alphabet index in {-1..5, MinInt, MaxInt, and values congruent to 0..3 modulo 2^8, 2^16, 2^32} x digest lengths {0,1,32,47,48,49,64} / event logs {empty, 1 byte, 100 bytes} x hash algorithms {SHA-384, SHA-256, SHA-512, SHA-1, 0}; every single request on empty and pre-populated TSMs (entries bound to other indices, unreadable / unparsable index files, an existing entry for the index, newline-terminated index), pairs of overlapping requests (the second runs to completion inside the first one's directory listing), and sequences of up to k requests (k = 6 quick, 10 thorough) against a model TSM client that records ReadDir / ReadFile index / MkdirTemp / WriteFile index / WriteFile digest and implements register extension. Ground truth: rejected requests perform no operation; accepted ones exactly one digest write of the exact digest on the entry bound to the index (re-used when it exists); registers equal the extend chain of the accepted digests per index in call order. non-trivial = history with at least one accepted request; distinct = distinct (initial TSM, request sequence)"
 	r := c.Rng
 	indices := []int{-1, 0, 1, 2, 3, 4, 5, math.MinInt, math.MaxInt, 255, 256, 257, 259, 260, -253, -256, 1 << 32, 1<<32 + 2, 1<<16 + 3, -(1 << 32) + 1}
 	dlens := []int{0, 1, 32, 47, 48, 49, 64}
@@ -345,6 +351,44 @@ func C17(c *core.Ctx) {
 			}
 		}
 	}
+	// two requests that overlap: the second runs to completion while the first is inside its
+	// directory listing (each must still extend exactly its own digest on its own register)
+	for i := 0; i < c.Scale(6, 60); i++ {
+		if !c.Wanted() {
+			c.Add(&core.Case{Class: "overlap", SkipModel: true, Impl: core.Ls()})
+			continue
+		}
+		i1, i2 := int(r.Intn(4)), int(r.Intn(4))
+		log1, log2 := core.RandBytes(r, 1+r.Intn(200)), core.RandBytes(r, 1+r.Intn(200))
+		useDigest2 := i%3 == 2
+		t := &modelTSM{shaTab: map[string][]byte{}}
+		var e1, e2 error
+		d1, d2 := sha512.Sum384(log1), sha512.Sum384(log2)
+		t.onReadDir = func() {
+			if useDigest2 {
+				e2 = rtmr.ExtendDigestClient(t, i2, d2[:])
+			} else {
+				e2 = rtmr.ExtendEventLogClient(t, i2, crypto.SHA384, log2)
+			}
+		}
+		pan := safely(func() { e1 = rtmr.ExtendEventLogClient(t, i1, crypto.SHA384, log1) })
+		gt := ""
+		var writes [][]byte
+		for _, op := range t.ops {
+			if op.Nth(0).N == 4 {
+				writes = append(writes, op.Nth(2).B)
+			}
+		}
+		switch {
+		case pan != nil:
+			gt = fmt.Sprintf("overlapping extend requests panicked: %v", pan)
+		case e1 != nil || e2 != nil:
+			gt = fmt.Sprintf("valid overlapping requests failed: %v / %v", e1, e2)
+		case len(writes) != 2 || !bytes.Equal(writes[0], d2[:]) || !bytes.Equal(writes[1], d1[:]):
+			gt = fmt.Sprintf("two overlapping valid requests (RTMR %d and %d): expected one write of each request's own SHA-384 digest, saw %d writes (the first request wrote %x..., its log hashes to %x...)", i1, i2, len(writes), firstN(lastOf(writes), 6), d1[:6])
+		}
+		c.Add(&core.Case{Class: "overlap", Desc: fmt.Sprintf("event log for RTMR %d overlapped by a request for RTMR %d", i1, i2), SkipModel: true, Impl: core.Ls(), GT: gt, NonTrivial: true})
+	}
 	k := c.Scale(6, 10)
 	for i := 0; i < c.Scale(400, 10000); i++ {
 		n := 2 + r.Intn(k-1)
@@ -363,4 +407,18 @@ func (t *modelTSM) findByName(n uint64) *tsmEntry {
 		}
 	}
 	return nil
+}
+
+func lastOf(w [][]byte) []byte {
+	if len(w) == 0 {
+		return nil
+	}
+	return w[len(w)-1]
+}
+
+func firstN(b []byte, n int) []byte {
+	if len(b) < n {
+		return b
+	}
+	return b[:n]
 }
